@@ -124,24 +124,24 @@ example : tokens .sqlite (Like.likeClause .sqlite containsOp [99] [39]) =
     some (Like.likeToks [99] [37, 39, 37] [92]) :=
   C02_like_pattern_one_literal _ _ _ _ (Or.inr (Or.inr rfl)) (by decide) (by decide)
 
-/-- an SQLObject instance used as a value renders as `str(self.id)`.  Full-strength statement (it is
-    one literal of its id).  FALSE of the code for string ids (`sqlmeta.idType = str`): the id text is
-    placed in the statement bare — `T.q.id == obj` with `obj.id = "0) OR (1=1"` reads `(0) OR (1=1)`. -/
-theorem C02_instance_value_full_FALSE :
-    ¬ (∀ (d : Dialect) (v : Val) (rest : Str), okAfter rest = true →
-        (match v with | .instStr s => 0 ∉ s | .instInt _ => True | _ => False) →
-        tokens d (render d v ++ rest) = (tokens d rest).map (valToks d v ++ ·)) := by
-  intro h
-  have := h .sqlite (.instStr [120, 41, 32, 79, 82, 32, 40, 49]) [41] (by decide) (by decide)
-  rw [tokens_close] at this
-  simp only [render, valToks, List.cons_append, List.nil_append] at this
-  rw [show (120 :: 41 :: 32 :: 79 :: 82 :: 32 :: 40 :: 49 :: [41] : Str) = [120] ++ (41 :: 32 :: 79 :: 82 :: 32 :: 40 :: 49 :: [41]) from rfl,
-    tokens_word _ _ _ (by decide) (by decide) (by decide), tokens_punct _ 41 _ (by decide)] at this
-  cases h2 : tokens Dialect.sqlite (32 :: 79 :: 82 :: 32 :: 40 :: 49 :: [41]) <;> simp [h2] at this
+/-- an SQLObject instance used as a value (`T.q.id == obj`, `IN(col, [obj])`) renders as the literal of
+    its id (`SQLObject.__sqlrepr__` = `sqlrepr(self.id, db)`), for integer AND string ids
+    (`sqlmeta.idType = str`): one string token that decodes to exactly the id, resp. sign + digits. -/
+theorem C02_instance_value (d : Dialect) (v : Val) (rest : Str) (hr : okAfter rest = true)
+    (hv : match v with | .instStr s => admissible d s | .instInt _ => True | _ => False) :
+    tokens d (render d v ++ rest) =
+      (tokens d rest).map ((match v with | .instStr s => [Tok.str s] | .instInt i => intToks i | _ => []) ++ ·) := by
+  cases v with
+  | instStr s =>
+    have := C02_lex_render_value d (.instStr s) rest (by simpa [Adm] using hv) hr
+    simpa [valToks] using this
+  | instInt i =>
+    have := C02_lex_render_value d (.instInt i) rest rfl hr
+    simpa [valToks] using this
+  | _ => exact absurd hv (by simp)
 
-/-- … and it holds for integer ids (the usual case): sign and digits, nothing else -/
-theorem C02_instance_value_partial (d : Dialect) (i : Int) (rest : Str) (hr : okAfter rest = true) :
-    tokens d (render d (.instInt i) ++ rest) = (tokens d rest).map (intToks i ++ ·) := by
-  simpa [valToks] using C02_lex_render_value d (.instInt i) rest rfl hr
+example : tokens .sqlite (render .sqlite (.instStr [48, 41, 32, 79, 82, 32, 40, 49, 61, 49]) ++ [41]) =
+    some [.str [48, 41, 32, 79, 82, 32, 40, 49, 61, 49], .punct 41] := by
+  rw [C02_instance_value _ _ _ (by decide) (by simp [admissible]), tokens_close]; rfl
 
 end SqlObjVerif.Lex
